@@ -87,11 +87,17 @@ func (cr *serverConnReader) runInner() error {
 	var rw io.ReadWriter = cr.sc.bc
 
 	if cr.sc.tunnel == TunnelNone {
+		// the first bytes of a connection are awaited like any other request
+		nconn := cr.sc.nconn
+		nconn.SetReadDeadline(time.Now().Add(cr.sc.s.IdleTimeout))
+
 		var err error
 		rw, err = cr.handleTunneling(rw)
 		if err != nil {
 			return err
 		}
+
+		nconn.SetReadDeadline(time.Time{})
 	}
 
 	cr.sc.conn = conn.NewConn(bufio.NewReader(rw), rw)
